@@ -178,6 +178,7 @@ pub struct Engine<'a> {
     pub no_dread: bool,
     pub keep_dir: bool,
     pub op_index: usize,
+    pub matrix_variant: Option<usize>,
     pub events: BTreeMap<String, u64>,
 }
 
@@ -208,6 +209,7 @@ impl<'a> Engine<'a> {
             no_dread: false,
             keep_dir: false,
             op_index: 0,
+            matrix_variant: None,
             events: BTreeMap::new(),
         };
         e.pool = gen_keyset(&mut e.rng, 40);
@@ -1048,7 +1050,18 @@ impl<'a> Engine<'a> {
         }
         let occupied_before = self.db.as_ref().map(|d| d.hash_table_utilization().occupied);
         self.db = None;
-        self.cfg = self.cfg.regen(&mut self.rng);
+        let regen = self.cfg.regen(&mut self.rng);
+        self.cfg = match self.matrix_variant {
+            Some(v) => {
+                // configuration matrix (C13): the reopened handle keeps following its variant, shifted
+                self.matrix_variant = Some(v + 1);
+                let mut c = cfg_variant(&self.cfg, v + 1);
+                c.buckets = self.cfg.buckets;
+                c.seed = self.cfg.seed;
+                c
+            }
+            None => regen,
+        };
         self.open_db();
         if !self.alive() {
             return;
@@ -1279,4 +1292,92 @@ pub fn scenario(name: &str, out: &mut Sink) {
         _ => e.out.fail(format!("unknown scenario {name}")),
     }
     e.finish();
+}
+
+
+/// the runtime-only part of configuration variant `v` (persistent parameters of `base` are kept)
+pub fn cfg_variant(base: &DbCfg, v: usize) -> DbCfg {
+    let workers = [1usize, 2, 3, 4, 7, 8, 16, 64, 5, 33];
+    let mut c = base.clone();
+    c.workers = workers[v % workers.len()];
+    c.warm_up = v % 2 == 1;
+    c.page_cache = [1usize, 256, 4, 1, 2][v % 5];
+    c.leaf_cache = [1usize, 4, 256][v % 3];
+    c.io_workers = 1 + v % 3;
+    c.prepopulate = v % 4 >= 2;
+    c.upper_levels = v % 4;
+    c
+}
+
+/// C13: the same history under a matrix of configurations; every observable line must be identical.
+pub fn run_matrix(seed: u64, cases: usize, out: &mut Sink, focus: &str, nops: usize, variants: usize, scale: usize) {
+    let mut rng = Rng::new(seed);
+    let pid = std::process::id();
+    let weights = weights_for(focus);
+    for case in 0..cases {
+        let r0 = rng.fork();
+        let mut reference: Option<(Vec<String>, Vec<String>)> = None;
+        let mut tables = [4096u32, 16384, 64000];
+        tables.rotate_left(case % 3);
+        for v in 0..variants {
+            let mut r = r0.clone();
+            let base = DbCfg::gen(&mut r);
+            let mut cfg = cfg_variant(&base, v + case);
+            // hash-table size and seed are creation-time options: vary them per variant as well
+            cfg.buckets = tables[v % 3];
+            cfg.seed[0] = v as u8;
+            let n = r.range(nops / 2, nops);
+            let dir = format!("/dev/shm/nomt-verif-db-{pid}-{seed}-{case}-m{v}");
+            let mut local = Sink::new();
+            {
+                let mut e = Engine::new(r, &mut local, cfg.clone(), dir, false);
+                e.matrix_variant = Some(v + case);
+                if scale > 1 {
+                    e.scale = scale;
+                    let extra = gen_keyset(&mut e.rng, 40 * scale);
+                    e.pool.extend(extra);
+                }
+                for _ in 0..n {
+                    e.step(&weights);
+                }
+                e.finish();
+            }
+            for f in local.oracle_failures.iter() {
+                out.fail(format!("(config {}) {f}", cfg.describe()));
+            }
+            for (k, c) in local.stats.iter() {
+                out.add(k, *c);
+            }
+            out.count("config_runs");
+            match &reference {
+                None => {
+                    out.mark_case(format!("case {case} matrix focus={focus} reference cfg: {}", cfg.describe()));
+                    for (o, i) in local.ops.iter().zip(local.imp.iter()) {
+                        out.line(o.clone(), i.clone());
+                    }
+                    if case < 1 {
+                        out.samples.push(format!("case {case}: {} lines compared across {} configurations, first: {}", local.ops.len(), variants, cfg.describe()));
+                    }
+                    reference = Some((local.ops, local.imp));
+                }
+                Some((rops, rimp)) => {
+                    if *rops != local.ops {
+                        let i = rops.iter().zip(local.ops.iter()).position(|(a, b)| a != b).unwrap_or(rops.len().min(local.ops.len()));
+                        out.fail(format!(
+                            "C13 the history itself diverged under configuration [{}] at line {i}: {:?} vs {:?}",
+                            cfg.describe(), rops.get(i).map(|s| &s[..s.len().min(120)]), local.ops.get(i).map(|s| &s[..s.len().min(120)])
+                        ));
+                    } else if *rimp != local.imp {
+                        let i = rimp.iter().zip(local.imp.iter()).position(|(a, b)| a != b).unwrap_or(0);
+                        out.fail(format!(
+                            "C13 observable differs under configuration [{}] at line {i} ({}): {:?} vs {:?}",
+                            cfg.describe(), &rops[i][..rops[i].len().min(100)], &rimp[i][..rimp[i].len().min(100)], &local.imp[i][..local.imp[i].len().min(100)]
+                        ));
+                    } else {
+                        out.nontrivial(&format!("{seed}-{case}-{v}"));
+                    }
+                }
+            }
+        }
+    }
 }
